@@ -17,6 +17,9 @@ def b(x):
     return x if z3.is_expr(x) else z3.BoolVal(bool(x))
 
 
+PKG_VERSION_KEYS = ["implementation_version", "platform_release", "python_full_version", "python_version"]      # packaging.markers.MARKERS_REQUIRING_VERSION
+
+
 def string_name(n):
     """the variable is a plain string variable (well-defined string atoms): not version-like, not `extra`, not set-valued"""
     return z3.And(*[n != z3.StringVal(v) for v in VERSION_LIKE + ["extra", "extras", "dependency_groups"]])
@@ -256,6 +259,30 @@ class BridgeB2:
                             ("C03.atom.evaluate-equals-packaging-eval-op", b(v[0]) == pk)]
                 yield {"name": f"{o}|reversed={rev}", "pre": [string_name(a.fields["name"])], "thunk": thunk,
                        "post": post, "args": (a,), "describe": describe}
+        # version-valued atoms (the variables packaging lists in MARKERS_REQUIRING_VERSION) whose literal makes `op + literal` a valid specifier:
+        # packaging._eval_op answers Specifier(written_op + rhs).contains(lhs) with the operands in the *written* order; PEP 440's exclusive
+        # ordering is not mirror-symmetric (pre-/post-releases of the bound), so the stored (mirrored) operator may not be applied the other way round
+        from pyvc.theories.atoms import PKG_CONTAINS
+        MIRROR = {"<": ">", "<=": ">=", ">": "<", ">=": "<=", "==": "==", "!=": "!=", "~=": "~=", "===": "==="}
+        for o in MIRROR:
+            for rev in (False, True):
+                a = th.sym_atom(o, "atom")
+                a.fields["reversed"] = rev
+                name = a.fields["name"]
+
+                def vthunk(ex, a=a):
+                    th.pkg_valid = True
+                    try:
+                        return ex.call_function(f, [a, EnvMapping()], inline=True)
+                    finally:
+                        th.pkg_valid = False
+                def vpost(ex, v, a=a, o=o, rev=rev):
+                    env, lit = ENV(a.fields["name"]), a.fields["value"]
+                    lhs, rhs = (lit, env) if rev else (env, lit)
+                    written = MIRROR[o] if rev else o
+                    return [("C03.atom.version.evaluate-equals-packaging-eval-op", b(v) == PKG_CONTAINS(z3.Concat(z3.StringVal(written), rhs), lhs))]
+                yield {"name": f"version|{o}|reversed={rev}", "pre": [z3.Or(*[name == z3.StringVal(n) for n in PKG_VERSION_KEYS])], "thunk": vthunk,
+                       "post": vpost, "args": (a,), "describe": describe}
 
 
 # ---------------------------------------------------------------- version-valued atoms: the merge logic over abstract specifier views
